@@ -316,13 +316,16 @@ def cli_patch_rules(chk, root):
     d = os.path.join(root, 'cli')
     os.makedirs(d)
     xml = ('<x><struct name="A"><member name="n" type="u32"/><member name="a" type="u8"><dimension size="2"/></member><member name="b" type="u8"/></struct>'
-           '<union name="U"><member name="a" type="u32" discriminatorValue="1"/><member name="b" type="u16" discriminatorValue="2"/></union></x>')
+           '<union name="U"><member name="a" type="u32" discriminatorValue="1"/><member name="b" type="u16" discriminatorValue="2"/></union>'
+           '<struct name="D"><member name="n" type="u32"/><member name="d" type="u8"><dimension isVariableSize="true"/></member></struct></x>')
     open(os.path.join(d, 'a.xml'), 'w').write(xml)
     scripts = [
         (['Absent dynamic a n'], True), (['A dynamic a n'], True), (['A greedy b'], True), (['A limited a n'], True),
         (['A dynamic a missing'], False), (['A dynamic a b'], False), (['A greedy a'], False), (['A static a 0'], False),
         (['A limited b n'], False), (['A remove zz'], False), (['A type zz u8'], False), (['A frobnicate a'], False), (['A'], False),
         (['A rename a'], True), (['A insert x y z'], False),
+        # 'limited: field needs to be a fixed array to begin with' - not a dynamic one, not a greedy one
+        (['D limited d n'], False), (['A dynamic a n', 'A limited a n'], False), (['D greedy d', 'D limited d n'], False), (['D static d 3', 'D limited d n'], True),
         # a union turned into a struct is a struct for the rules (and the checks) that follow
         (['U struct'], True), (['U struct', 'U rename b c'], True), (['U struct', 'U rename b a'], False), (['U struct', 'U insert 0 b u8'], False),
         (['U struct', 'U insert 999 a u64', 'U static a 3'], False), (['U rename b a'], False), (['A rename b a'], False), (['A insert 0 b u8'], False),
